@@ -104,16 +104,27 @@ def tlc_exhaustive(ctx, slots, tmpls, maxops, maxbatches, tag="ex", opts=None):
 
 
 def run_histories(ctx, hs, tag, fresh=1, facts=False, timeout=3400):
+    """Runs the histories on the real pipeline.  Every controller instance leaves about 1-2 MB behind in the process (collectors
+    registered for good by the metrics of the controller), so the histories go through harness/cmd/ctl in chunks."""
     inp = ctx.path("ctl", tag + ".json")
     out = ctx.path("ctl", tag + ".ndjson")
     json.dump(hs, open(inp, "w"))
-    cmd = [os.path.join(ctx.bindir, "ctl"), "-in", inp, "-out", out, "-work", ctx.path("ctl", "w" + tag, "x"),
-           "-fresh", str(fresh), "-seed", str(ctx.seed), "-par", str(core.NCPU)]
-    if facts:
-        cmd.append("-facts")
-    p = core.run(cmd, timeout=timeout, env=dict(VERIF_REPO=core.REPO))
-    st = json.loads(p.stdout.strip().splitlines()[-1])
-    ctx.traces_validated += st["histories"]
+    CH = 2500
+    with open(out, "w") as fo:
+        for ci in range(0, len(hs), CH):
+            cin = ctx.path("ctl", "%s-chunk%d.json" % (tag, ci // CH))
+            cout = ctx.path("ctl", "%s-chunk%d.ndjson" % (tag, ci // CH))
+            json.dump(hs[ci:ci + CH], open(cin, "w"))
+            cmd = [os.path.join(ctx.bindir, "ctl"), "-in", cin, "-out", cout, "-work", ctx.path("ctl", "w" + tag, "x"),
+                   "-fresh", str(fresh), "-seed", str(ctx.seed), "-par", str(core.NCPU)]
+            if facts:
+                cmd.append("-facts")
+            p = core.run(cmd, timeout=timeout, env=dict(VERIF_REPO=core.REPO))
+            st = json.loads(p.stdout.strip().splitlines()[-1])
+            ctx.traces_validated += st["histories"]
+            fo.write(open(cout).read())
+            os.remove(cout)
+            os.remove(cin)
     return out, inp
 
 
